@@ -559,9 +559,15 @@ class TCPHiddenServiceEndpoint(object):
         # descriptor and make this one the default? Then would
         # probably want to check for "is a local interface or not" and
         # at *least* warn if it's not local...
+        # a service this endpoint created earlier is not announced to
+        # Tor again (see "already" below), so Tor keeps forwarding to
+        # the port of the first listen(): listen on that one again
+        port = 0
+        if self.hiddenservice is not None and self.local_port:
+            port = self.local_port
         self.tcp_endpoint = serverFromString(
             self._reactor,
-            'tcp:0:interface=127.0.0.1',
+            'tcp:%d:interface=127.0.0.1' % port,
         )
         d = self.tcp_endpoint.listen(self.protocolfactory)
         self.tcp_listening_port = yield d
